@@ -708,4 +708,20 @@ theorem axis_orthoPair (o : Ori) (ho : OrthoPair o.row o.col) {cv : Char × Char
   rcases mem_validConventions hcv with rfl | rfl | rfl | rfl | rfl | rfl | rfl | rfl <;>
     refine ⟨?_, ?_, ?_⟩ <;> simp [axisVec, V3.dot, V3.neg] <;> linarith
 
+theorem cross_dot_left (a b : V3) : (a.cross b).dot a = 0 := by
+  cases a; cases b; simp only [V3.cross, V3.dot]; ring
+theorem cross_dot_right (a b : V3) : (a.cross b).dot b = 0 := by
+  cases a; cases b; simp only [V3.cross, V3.dot]; ring
+
+/-- the normal component of a point produced by the forward affine -/
+theorem nrm_dot_fwd (P : Plane) (sbs : Rat) (p : V3) :
+    P.nrm.dot ((P.fwd sbs).apply p) = P.nrm.dot P.pos + p.z * sbs * P.nrm.dot P.nrm := by
+  have h1 := cross_dot_left P.o.row P.o.col
+  have h2 := cross_dot_right P.o.row P.o.col
+  obtain ⟨⟨px, py, pz⟩, ⟨⟨a1, a2, a3⟩, ⟨b1, b2, b3⟩⟩, sr, sc⟩ := P
+  obtain ⟨x, y, z⟩ := p
+  simp only [Plane.nrm, V3.cross, V3.dot] at h1 h2 ⊢
+  simp only [Plane.fwd, Aff.apply, M3.mulVec, V3.smul, V3.add, Plane.nrm, V3.cross, V3.dot]
+  linear_combination (x * sc) * h1 + (y * sr) * h2
+
 end HdVerif.Affine
